@@ -331,10 +331,11 @@ theorem gr_header (lv : Level) (v : CtV) :
 /-- number of `u64` words `serialize_full` sends, as the size function computes it -/
 def fullSentV (v : CtV) : Nat := if v.seeded then (v.poly 0).length + 1 + seedWords else v.data.length
 
-theorem gr_ct_full_size (lv : Level) (v : CtV) :
-    ct_serialized_full_size lv v = ctSerializedFullSize lv (fullSentV v) := by
+theorem gr_ct_full_size (ctx : Ctx) (lv : Level) (v : CtV) (hfind : ctx.find v.pid = some lv) :
+    ct_serialized_full_size ctx v = .ok (ctSerializedFullSize lv (fullSentV v)) := by
   have hh := gr_header lv v
   unfold ct_serialized_full_size ctSerializedFullSize fullSentV
+  simp only [hfind, ppure]
   simp only [pid_serialized_size, usize_serialized_size, bool_serialized_size, f64_serialized_size, u64_serialized_size, seedWords] at hh ⊢
   rw [← hh]
 
@@ -366,13 +367,13 @@ theorem gr_terms_loop (limits : List Nat) (n tc upper : Nat) (hu : 1 ≤ upper) 
     simp only [List.take_succ_cons, List.map_cons, List.sum_cons, Nat.add_assoc]
 
 /-- `Ciphertext::serialized_size` = the model's closed form `ctSerializedSize` (every modulus a `u64`) -/
-theorem gr_ct_size (lv : Level) (v : CtV) (hq : ∀ q ∈ lv.moduli, q < 2^64) :
-    ct_serialized_size lv v = .ok (ctSerializedSize lv v.size v.seeded) := by
+theorem gr_ct_size (ctx : Ctx) (lv : Level) (v : CtV) (hfind : ctx.find v.pid = some lv) (hq : ∀ q ∈ lv.moduli, q < 2^64) :
+    ct_serialized_size ctx v = .ok (ctSerializedSize lv v.size v.seeded) := by
   have hh := gr_header lv v
   have hl := gr_limits lv.moduli hq
   have hloop := fun acc => gr_size_loop (lv.moduli.map u64Limit) lv.n (if v.seeded then 1 else v.size) lv.moduli.length acc 0 (by simp)
   unfold ct_serialized_size ctSerializedSize
-  simp only [gr_pbind_pure]
+  simp only [hfind, gr_pbind_pure]
   simp only [hl, pbind, ppure, Nat.sub_zero, hloop, List.drop_zero, seedWords]
   rw [← hh]
   have : List.take lv.moduli.length (List.map u64Limit lv.moduli) = List.map u64Limit lv.moduli := by
@@ -381,8 +382,9 @@ theorem gr_ct_size (lv : Level) (v : CtV) (hq : ∀ q ∈ lv.moduli, q < 2^64) :
   split_ifs <;> simp <;> omega
 
 /-- `Ciphertext::serialized_terms_size` = `ctSerializedTermsSize`, provided `upper - 1` does not trap: a seeded ciphertext, or size ≥ 1 -/
-theorem gr_ct_terms_size (lv : Level) (v : CtV) (tc : Nat) (hq : ∀ q ∈ lv.moduli, q < 2^64) (hu : v.seeded = true ∨ 1 ≤ v.size) :
-    ct_serialized_terms_size lv v tc = .ok (ctSerializedTermsSize lv v.size v.seeded tc) := by
+theorem gr_ct_terms_size (ctx : Ctx) (lv : Level) (v : CtV) (tc : Nat) (hfind : ctx.find v.pid = some lv)
+    (hq : ∀ q ∈ lv.moduli, q < 2^64) (hu : v.seeded = true ∨ 1 ≤ v.size) :
+    ct_serialized_terms_size ctx v tc = .ok (ctSerializedTermsSize lv v.size v.seeded tc) := by
   have hh := gr_header lv v
   have hl := gr_limits lv.moduli hq
   have hup : 1 ≤ (if v.seeded then 1 else v.size) := by
@@ -391,7 +393,7 @@ theorem gr_ct_terms_size (lv : Level) (v : CtV) (tc : Nat) (hq : ∀ q ∈ lv.mo
     · split <;> omega
   have hloop := fun acc => gr_terms_loop (lv.moduli.map u64Limit) lv.n tc (if v.seeded then 1 else v.size) hup lv.moduli.length acc 0 (by simp)
   unfold ct_serialized_terms_size ctSerializedTermsSize
-  simp only [gr_pbind_pure]
+  simp only [hfind, gr_pbind_pure]
   simp only [hl, pbind, ppure, Nat.sub_zero, hloop, List.drop_zero, seedWords]
   rw [← hh]
   have : List.take lv.moduli.length (List.map u64Limit lv.moduli) = List.map u64Limit lv.moduli := by
@@ -401,15 +403,25 @@ theorem gr_ct_terms_size (lv : Level) (v : CtV) (tc : Nat) (hq : ∀ q ∈ lv.mo
 
 /-- the excluded point: an EMPTY unseeded ciphertext at a level with at least one modulus — the code traps in `upper - 1`
     (the model's closed form, with truncated subtraction, returns a number) -/
-theorem gr_ct_terms_size_traps (lv : Level) (v : CtV) (tc : Nat) (q : Nat) (qs : List Nat) (hm : lv.moduli = q :: qs)
+theorem gr_ct_terms_size_traps (ctx : Ctx) (lv : Level) (v : CtV) (tc : Nat) (hfind : ctx.find v.pid = some lv)
+    (q : Nat) (qs : List Nat) (hm : lv.moduli = q :: qs)
     (hq : ∀ q ∈ lv.moduli, q < 2^64) (hs : v.seeded = false) (h0 : v.size = 0) :
-    ct_serialized_terms_size lv v tc = .error .overflow := by
+    ct_serialized_terms_size ctx v tc = .error .overflow := by
   have hl := gr_limits lv.moduli hq
   rw [hm] at hl
   unfold ct_serialized_terms_size
-  simp only [gr_pbind_pure]
+  simp only [hfind, gr_pbind_pure]
   simp only [hl, pbind, ppure, hs, h0, hm, List.length_cons, Nat.sub_zero, List.range'_succ, ct_serialized_terms_size_loop1,
     ckSub, Bool.false_eq_true, if_false]
   simp
+
+/-- an unknown parms id: `get_context_data(..).unwrap()` panics in all three size functions -/
+theorem gr_ct_sizes_unknown_pid (ctx : Ctx) (v : CtV) (tc : Nat) (hfind : ctx.find v.pid = none) :
+    ct_serialized_full_size ctx v = .error .other ∧ ct_serialized_size ctx v = .error .other ∧
+    ct_serialized_terms_size ctx v tc = .error .other := by
+  refine ⟨?_, ?_, ?_⟩
+  · unfold ct_serialized_full_size; simp only [hfind]
+  · unfold ct_serialized_size; simp only [hfind]
+  · unfold ct_serialized_terms_size; simp only [hfind]
 
 end HC.GS
